@@ -1113,10 +1113,12 @@ class AstEval:
         self.sym_table = self.sym_table_stack.pop()
 
         decorators = [await self.aeval(dec) for dec in arg.decorator_list]
-        sym_table["__init__evalfunc_wrap__"] = None
         if "__init__" in sym_table:
             sym_table["__init__evalfunc_wrap__"] = sym_table["__init__"]
             del sym_table["__init__"]
+        elif not any(hasattr(base, "__init__evalfunc_wrap__") for base in bases):
+            # without its own __init__ a class inherits the (wrapped) one of its bases, if any
+            sym_table["__init__evalfunc_wrap__"] = None
         cls = metaclass(arg.name, tuple(bases), sym_table, **keywords)
         if inspect.iscoroutine(cls):
             cls = await cls
